@@ -789,7 +789,9 @@ func (p *Parser) walkType(u types.Universe, useName *types.Name, in gotypes.Type
 				out.GoType = in
 				return out // short circuit if we've already made this.
 			}
-			out = p.walkType(u, &name, t.Underlying())
+			// Describe the generic declaration itself, not whichever
+			// instantiation of it happens to be seen first.
+			out = p.walkType(u, &name, t.Origin().Underlying())
 			out.TypeParams = tpMap
 		default:
 			// gotypes package makes everything "named" with an
